@@ -148,6 +148,11 @@ def condHolds (opaqueSem : String → Props → Bool) (P : Props) : Cond → Boo
 def validate (opaqueSem : String → Props → Bool) (conds : List Cond) (P : Props) : Bool :=
   conds.all (fun c => !condHolds opaqueSem P c)
 
+/-- gov `InitGenesis`: `SetNetworkProperties(genesisState.NetworkProperties)` validates the whole record; the chain
+starts (with exactly that record stored) only when it is valid, otherwise InitChain panics -/
+def genesisInit (opaqueSem : String → Props → Bool) (conds : List Cond) (P : Props) : Option Props :=
+  if validate opaqueSem conds P then some P else none
+
 /-- `SetNetworkProperty`: run the arm, then `SetNetworkProperties` (validate, store). `none` = error, nothing stored. -/
 def setProperty (parseDec : String → Option Int) (guardOk : String → Props → Nat → In → Bool)
     (opaqueSem : String → Props → Bool) (conds : List Cond)
